@@ -25,6 +25,9 @@ ITER = "core::iter::traits::iterator::Iterator"
 MAXR = 8
 
 
+COLLECT = True
+
+
 def _callee(t):
     c = t.get("callee") or {}
     if "indirect" in c:
@@ -173,8 +176,19 @@ class Rewriter:
         bb, t = created
         key = "_ds_state"
         if key not in t:
-            blk = self.j["blocks"][bb]
-            t[key] = (self.stash(blk, t["args"][0], span), self.stash(blk, t["args"][1], span))
+            blk = next((x for x in self.j["blocks"] if x["term"] is t), self.j["blocks"][bb])
+            clo = self.stash(blk, t["args"][1], span)
+            p = t["args"][0].get("move") or t["args"][0].get("copy")
+            if p is not None and blk["term"] is t:
+                # the inner iterator goes through an explicit (identity) into_iter call, as in a `for` loop: rules that name loops by
+                # their into_iter call see the rewritten pipeline like the loop it is equivalent to
+                src = self.j["locals"][p["local"]]
+                inner = self.new_local(src["ty"], src["adt"], src["tk"])
+                nb = self.new_block([], t)
+                blk["term"] = self.call("core::iter::traits::collect::IntoIterator::into_iter", [{"copy": copy.deepcopy(p)}], inner, nb, span)
+            else:
+                inner = self.stash(blk, t["args"][0], span)
+            t[key] = (inner, clo)
         return t[key]
 
     def rewrite_next(self, blk, kind, defs):
@@ -245,6 +259,95 @@ class Rewriter:
             return self.new_block(stm, self.call("alloc::vec::Vec::push", [self.mv(vr), self.mv(x)], u, H, span, krate="alloc"))
         H, _ = self.next_loop_head(it, "core::option::Option<%s>" % item_ty, span, done, on_some)
         blk["term"] = {"k": "goto", "target": H}
+        return True
+
+    def rewrite_collect(self, blk, defs):
+        """v = pipeline.collect::<Vec<T>>()   ->   v = Vec::new(); loop { match it.next() { Some(x) => v.push(x), None => break } }"""
+        t = blk["term"]
+        span = t.get("span")
+        pi = t["args"][0].get("move") or t["args"][0].get("copy")
+        D, T = t["dest"], t.get("target")
+        if pi is None or pi["proj"] or T is None or D["proj"] or not self.is_pipeline(pi["local"], defs):
+            return False
+        vty = self.j["locals"][D["local"]]["ty"]
+        m = re.fullmatch(r"(?:std|alloc)::vec::Vec<(.*)>", vty)
+        if not m:
+            return False
+        item_ty = m.group(1)
+        it = self.stash(blk, t["args"][0], span)
+        done = self.new_block([], {"k": "goto", "target": T})
+
+        def on_some(n, H):
+            x = self.new_local(item_ty, None, "adt")
+            vr = self.new_local("&mut " + vty, "alloc::vec::Vec", "refmut")
+            u = self.new_local("()", None, "unit")
+            stm = [self.assign(x, self.use(self.mv(n, self.some_payload(n))), span), self.assign(vr, self.ref(D["local"], True), span)]
+            return self.new_block(stm, self.call("alloc::vec::Vec::push", [self.mv(vr), self.mv(x)], u, H, span, krate="alloc"))
+        H, _ = self.next_loop_head(it, "core::option::Option<%s>" % item_ty, span, done, on_some)
+        blk["term"] = self.call("alloc::vec::Vec::new", [], D["local"], H, span, krate="alloc")
+        return True
+
+    def rewrite_fold(self, blk, defs, tryf):
+        """acc = it.fold(init, f)       ->  acc = init; loop { match it.next() { Some(x) => acc = f(acc, x), None => break } }
+        r = it.try_fold(init, f)     ->  the same with `match f(acc, x) { Ok(v)/Some(v) => acc = v, miss => { r = miss; break } }`, r = Ok/Some(acc) at the end"""
+        t = blk["term"]
+        span = t.get("span")
+        D, T = t["dest"], t.get("target")
+        if T is None or D["proj"] or len(t["args"]) != 3:
+            return False
+        p0 = t["args"][0].get("move") or t["args"][0].get("copy")
+        if p0 is None or p0["proj"]:
+            return False
+        itl = p0["local"]
+        if tryf:
+            # try_fold takes `&mut self`: the iterator is the referent of the reference
+            ds = defs.get(itl, [])
+            if len(ds) != 1 or ds[0][0] != "assign" or ds[0][2]["rv"]["k"] != "ref" or ds[0][2]["rv"]["place"]["proj"]:
+                return False
+            itl = ds[0][2]["rv"]["place"]["local"]
+        if not self.j["locals"][itl].get("adt"):
+            return False
+        cbody = self.closure_body(t["args"][2])
+        if cbody is None or cbody.arg_count != 3:
+            return False
+        acc_ty = cbody.locals[2]["ty"]
+        item_ty = cbody.locals[3]["ty"]
+        rty = cbody.locals[0]["ty"]
+        if tryf:
+            m = re.match(r"(?:std|core)::(result::Result|option::Option)<", rty)
+            if not m:
+                return False
+            adt = "core::" + m.group(1)
+            hit, hidx, midx = ("Ok", 0, 1) if "Result" in adt else ("Some", 1, 0)
+        # the iterator goes through an explicit (identity) into_iter call, as in a `for` loop
+        src = self.j["locals"][itl]
+        it = self.new_local(src["ty"], src["adt"], src["tk"])
+        acc = self.stash(blk, t["args"][1], span)
+        clo = self.stash(blk, t["args"][2], span)
+        if tryf:
+            fin_rv = {"k": "aggr", "adt": adt, "variant": hit, "fields": [self.mv(acc)], "names": ["0"], "is_enum": True}
+        else:
+            fin_rv = self.use(self.mv(acc))
+        done = self.new_block([{"k": "assign", "place": copy.deepcopy(D), "rv": fin_rv, "span": span, "exp": False}], {"k": "goto", "target": T})
+
+        def on_some(n, H):
+            x = self.new_local(item_ty, None, "adt")
+            cr = self.new_local("&mut " + self.j["locals"][clo]["ty"], None, "refmut")
+            y = self.new_local(rty, cbody.locals[0]["adt"], cbody.locals[0]["tk"])
+            stm = [self.assign(x, self.use(self.mv(n, self.some_payload(n))), span), self.assign(cr, self.ref(clo, True), span)]
+            if not tryf:
+                back = self.new_block([self.assign(acc, self.use(self.mv(y)), span)], {"k": "goto", "target": H})
+            else:
+                d = self.new_local("isize", None, "int")
+                cont = self.new_block([self.assign(acc, self.use(self.mv(y, [{"downcast": hit, "vidx": hidx}, {"field": "0", "of": adt, "idx": 0}])), span)], {"k": "goto", "target": H})
+                brk = self.new_block([{"k": "assign", "place": copy.deepcopy(D), "rv": self.use(self.mv(y)), "span": span, "exp": False}], {"k": "goto", "target": T})
+                back = self.new_block([self.assign(d, {"k": "discr", "place": {"local": y, "proj": []}, "adt": adt, "ty": rty}, span)],
+                                      {"k": "switch", "discr": self.mv(d), "arms": [[hidx, cont], [midx, brk]], "otherwise": brk, "span": span})
+            return self.new_block(stm, self.call(cbody.fn, [self.mv(cr), self.mv(acc), self.mv(x)], y, back, span, krate=cbody.crate.name))
+        H, _ = self.next_loop_head(it, "core::option::Option<%s>" % item_ty, span, done, on_some)
+        blk["term"] = self.call("core::iter::traits::collect::IntoIterator::into_iter", [self.cp(itl)], it, H, span)
+        self.splice_closures({cbody.fn: cbody})
+        self.w.inlined[cbody.fn] = True
         return True
 
     def rewrite_unzip(self, blk, defs):
@@ -375,6 +478,12 @@ class Rewriter:
                     ok = self.rewrite_next(blk, "map", defs)
                 elif re.search(r"<alloc::vec::Vec as core::iter::traits::collect::Extend(<.*>)?>::extend$", c):
                     ok = self.rewrite_extend(blk, defs)
+                elif c == ITER + "::collect" and COLLECT:
+                    ok = self.rewrite_collect(blk, defs)
+                elif re.search(r"core::iter::traits::iterator::Iterator>?::(try_fold|fold)$", c) and \
+                        ITER + "::" + c.rsplit("::", 1)[1] not in self.w._baseline_adaptors.get(self.b.fn, ()):
+                    # only where the combinator was introduced after the rules were confirmed (inert on the confirmed tree)
+                    ok = self.rewrite_fold(blk, defs, c.endswith("try_fold"))
                 elif c == ITER + "::unzip":
                     ok = self.rewrite_unzip(blk, defs)
                 elif c in ("core::option::Option::map", "core::result::Result::map") and c not in self.w._baseline_adaptors.get(self.b.fn, ()):
@@ -406,7 +515,7 @@ def apply(world):
             continue
         # cheap pre-filter
         names = [_callee(bl["term"]) for bl in b.blocks if bl["term"] and bl["term"]["k"] == "call"]
-        if not any(("adapters::filter::Filter as" in n or "adapters::map::Map as" in n or n.endswith("::extend") or n.endswith("Iterator::unzip")
+        if not any(("adapters::filter::Filter as" in n or "adapters::map::Map as" in n or n.endswith("::extend") or n.endswith("Iterator::unzip") or n.endswith("Iterator::collect") or n.endswith("Iterator::fold") or n.endswith("Iterator::try_fold")
                     or n in ("core::option::Option::map", "core::result::Result::map")) for n in names):
             continue
         if b.fn.split("::")[0].lstrip("<") not in members and not any(b.fn.startswith("<" + m) for m in members):
